@@ -211,6 +211,10 @@ def enc_vui(w, v):
         w.b(r["mv"]).ue(r["a"]).ue(r["b"]).ue(r["c"]).ue(r["d"]).ue(r["reorder"]).ue(r["mdfb"])
 
 
+COMMON_SIZES = [(119, 67, True), (119, 33, False), (119, 67, None), (79, 44, None), (44, 35, None), (44, 17, False), (44, 29, None),
+                (21, 17, None), (10, 8, None), (39, 29, None), (239, 134, True), (159, 89, None), (119, 68, None), (120, 67, None)]
+
+
 def gen_sps(rng, sps_id=None, small=False, vui_shape=None, force=None):
     """returns a dict of syntax element values; small=True keeps sizes/values small (for PPS/slice contexts)"""
     force = force or {}
@@ -240,9 +244,14 @@ def gen_sps(rng, sps_id=None, small=False, vui_shape=None, force=None):
         s["w"], s["h"] = rng.randrange(0, 12), rng.randrange(0, 12)
     else:
         s["w"], s["h"] = ue_val(rng, big=rng.random() < 0.3), ue_val(rng, big=rng.random() < 0.3)
+    fmo = rng.random() < 0.6
+    if not small and rng.random() < 0.15:
+        # sizes real encoders produce (1080p/i, 720p, SD, CIF, QCIF, VGA, 4K) - with and without cropping
+        s["w"], s["h"], f = rng.choice(COMMON_SIZES)
+        fmo = f if f is not None else fmo
     s["w"] = force.get("w", s["w"])
     s["h"] = force.get("h", s["h"])
-    s["frame_mbs_only"] = force.get("frame_mbs_only", rng.random() < 0.6)
+    s["frame_mbs_only"] = force.get("frame_mbs_only", fmo)
     s["mbaff"] = rng.random() < 0.5
     s["direct8x8"] = rng.random() < 0.5
     s["crop"] = None if rng.random() < 0.5 else tuple(ue_val(rng) if rng.random() < 0.8 else ue_val(rng, big=True) for _ in range(4))
